@@ -29,11 +29,16 @@ type c08Case struct {
 	metaLimit int
 	faultAt   int    // -1 = none
 	faultKind string // eof | unexpected-eof | reset
+	empty     bool   // zero-length body (Content-Length: 0)
 }
 
 func (cs c08Case) String() string {
-	return fmt.Sprintf("%s target=%s start=%s md5=%s len=%s framing=%s integrity=%v keylen=%d meta=%d/%d fault=%d/%s",
+	s := fmt.Sprintf("%s target=%s start=%s md5=%s len=%s framing=%s integrity=%v keylen=%d meta=%d/%d fault=%d/%s",
 		cs.kind, cs.target, cs.start, cs.md5, cs.declLen, cs.framing, cs.integrity, cs.keyLen, cs.metaUser, cs.metaLimit, cs.faultAt, cs.faultKind)
+	if cs.empty {
+		s += " body=empty"
+	}
+	return s
 }
 
 var errReset = errors.New("read tcp: connection reset by peer")
@@ -59,6 +64,16 @@ func runC08(c *engine.Ctx) {
 						for _, fr := range framings {
 							for _, integ := range []bool{true, false} {
 								cases = append(cases, c08Case{kind: k, target: target, start: st, md5: m, declLen: dl, framing: fr, integrity: integ, faultAt: -1})
+							}
+						}
+					}
+				}
+				// zero-length bodies: the digest and framing rules apply to them too
+				if target == "object" {
+					for _, m := range []string{"absent", "correct", "wrong", "not-base64", "short15", "long17", "empty"} {
+						for _, fr := range []string{"plain", "chunked", "chunked-dec+1"} {
+							for _, integ := range []bool{true, false} {
+								cases = append(cases, c08Case{kind: k, target: target, start: st, md5: m, declLen: "exact", framing: fr, integrity: integ, faultAt: -1, empty: true})
 							}
 						}
 					}
@@ -126,6 +141,9 @@ func c08Run(c *engine.Ctx, cs c08Case) (string, string, string) {
 		key = strings.Repeat("k", cs.keyLen)
 	}
 	body := []byte("hello-body12")
+	if cs.empty {
+		body = []byte{}
+	}
 	old := []byte("the-old-content")
 	uploadID := ""
 	switch cs.start {
@@ -188,7 +206,11 @@ func c08Run(c *engine.Ctx, cs c08Case) (string, string, string) {
 	wire := body
 	switch cs.framing {
 	case "chunked", "chunked-dec+1", "chunked-dec-1":
-		wire = drv.EncodeChunked(body, []int{5, 7})
+		if cs.empty {
+			wire = drv.EncodeChunked(body, nil)
+		} else {
+			wire = drv.EncodeChunked(body, []int{5, 7})
+		}
 		dec := len(body)
 		if cs.framing == "chunked-dec+1" {
 			dec++
